@@ -1,10 +1,146 @@
-(* C05 -- property theorems only. *)
-From Coq Require Import List NArith ZArith Bool.
+(* C05 -- property theorems only.  Each is closed by [exact] of a lemma proved in Proofs/C05.v or
+   Proofs/C05_cfg.v; Print Assumptions beneath each. *)
+From Coq Require Import List NArith ZArith Bool Sorting.Permutation.
 Import ListNotations.
-Require Import Verif.Lib.Wire Verif.Gen.Facts_C03 Verif.Model.C03 Verif.Gen.Facts_C05 Verif.Model.C05 Verif.Proofs.C05.
+Require Import Verif.Lib.Wire Verif.Gen.Facts_C03 Verif.Model.C03 Verif.Gen.Facts_C05 Verif.Model.C05.
+Require Import Verif.Proofs.C05 Verif.Proofs.C05_cfg.
+Require Verif.Gen.Facts_C18 Verif.Model.C18.
+Local Close Scope N_scope.
+Local Open Scope nat_scope.
 
-Theorem C05_deriver_order :
-  deriver_names = [nm_attr_wrapped_view; nm_predicated_view; nm_secured_view; nm_csrf_view; nm_owrapped_view;
-                   nm_http_cached_view; nm_decorated_view; nm_rendered_view; nm_mapped_view].
-Proof. exact deriver_names_eq. Qed.
-Print Assumptions C05_deriver_order.
+(* secured_outermost: in the order C18's sorter computes from the regenerated declarations of
+   add_default_view_derivers, secured_view precedes every other sorted deriver, mapped_view is last, and the
+   pipeline is the two fixed outer derivers followed by that order *)
+Theorem C05_secured_outermost :
+  exists ds mid,
+    C18.sorted C18.default_derivers = C18.Sorted ds /\
+    map fst ds = nm_secured_view :: mid ++ [nm_mapped_view] /\
+    ~ In nm_secured_view mid /\
+    deriver_names = Facts_C18.dv_outer ++ map fst ds.
+Proof. exact secured_outermost. Qed.
+Print Assumptions C05_secured_outermost.
+
+(* every derived view: predicates, then the permission check, then the wrapper view, then the decorator *)
+Theorem C05_wrappers_shape : forall d,
+  wrappers d = pred_part d ++ sec_part d ++ ow_part d ++ deco_part d.
+Proof. exact wrappers_shape. Qed.
+Print Assumptions C05_wrappers_shape.
+
+(* effective_permission: the permission _secured_view closes over, as a table *)
+Theorem C05_effective_permission : forall st exception_only perm p,
+  secured_permission st exception_only perm = Some p <->
+  rs_policy st = true /\ is_npr p = false /\
+  (perm = Some p \/ (perm = None /\ exception_only = false /\ rs_defperm st = Some p)).
+Proof. exact secured_permission_spec. Qed.
+Print Assumptions C05_effective_permission.
+
+Theorem C05_no_policy_no_protection : forall st eo perm,
+  rs_policy st = false -> secured_permission st eo perm = None.
+Proof. exact secured_no_policy. Qed.
+Print Assumptions C05_no_policy_no_protection.
+
+Theorem C05_marker_means_none : forall st eo p, is_npr p = true -> secured_permission st eo (Some p) = None.
+Proof. exact secured_marker. Qed.
+Print Assumptions C05_marker_means_none.
+
+Theorem C05_exception_view_no_default : forall st, secured_permission st true None = None.
+Proof. exact secured_exception_only_no_default. Qed.
+Print Assumptions C05_exception_view_no_default.
+
+(* mediation: for every registry state, decision table and request, every decorator entry and every
+   execution of the callable of a view whose _secured_view closed over p is preceded, in the same request,
+   by Permits p c true for the context c that view is called with *)
+Theorem C05_mediation : forall R D tb q i e t c d p,
+  nth_error (fst (router_call R D tb q)) i = Some e -> (e = Body t c \/ e = Deco t c) ->
+  assocN t D = Some d -> d_perm d = Some p ->
+  exists j, j < i /\ nth_error (fst (router_call R D tb q)) j = Some (Permits p c true).
+Proof. exact mediation. Qed.
+Print Assumptions C05_mediation.
+
+(* refusal_blocks: a refused check is followed at once by the 403 handling (the exception-view tween receives
+   HTTPForbidden); the only other possibility is a refusal while an exception view is being rendered, then it
+   is the last event and HTTPForbidden leaves the application (refusal_403_partial of the design: finding
+   C05-excview-refusal-propagates).  In neither case does an event of the refused view follow. *)
+Theorem C05_refusal_blocks : forall R D tb q j p c,
+  nth_error (fst (router_call R D tb q)) j = Some (Permits p c false) ->
+  nth_error (fst (router_call R D tb q)) (S j) = Some (Raised EForbidden) \/
+  (S j = length (fst (router_call R D tb q)) /\ snd (router_call R D tb q) = Propagated EForbidden /\
+   exists k e, k < j /\ nth_error (fst (router_call R D tb q)) k = Some (Raised e)).
+Proof. exact refusal_blocks. Qed.
+Print Assumptions C05_refusal_blocks.
+
+(* the full-strength "403 handling runs" clause is false of the faithful model: witness *)
+Theorem C05_refusal_403_refuted :
+  exists R D tb q j p c,
+    nth_error (fst (router_call R D tb q)) j = Some (Permits p c false) /\
+    nth_error (fst (router_call R D tb q)) (S j) <> Some (Raised EForbidden).
+Proof. exact refusal_403_refuted. Qed.
+Print Assumptions C05_refusal_403_refuted.
+
+(* unprotected_never_blocked (1): the policy is only ever asked on behalf of a registered view that closed
+   over that very permission *)
+Theorem C05_permits_on_behalf : forall R D tb q p c b,
+  In (Permits p c b) (fst (router_call R D tb q)) ->
+  exists t d, assocN t D = Some d /\ (d_perm d = Some p \/ exists bh, d_body d = Slash (Some p) bh).
+Proof. exact permits_on_behalf. Qed.
+Print Assumptions C05_permits_on_behalf.
+
+(* (2): when no registered view closed over a permission (no policy, or no effective permission anywhere)
+   the policy is never asked *)
+Theorem C05_unprotected_never_asked : forall R D tb q,
+  (forall t d, In (t, d) D -> d_perm d = None /\ forall p bh, d_body d <> Slash (Some p) bh) ->
+  forall p c b, ~ In (Permits p c b) (fst (router_call R D tb q)).
+Proof. exact unprotected_never_asked. Qed.
+Print Assumptions C05_unprotected_never_asked.
+
+(* (3): HTTPForbidden out of the main handler has a source: a refused check or application code *)
+Theorem C05_forbidden_has_source : forall R D tb q tr,
+  handle_request R D tb q = (tr, Raise EForbidden) ->
+  exists e, last_opt tr = Some e /\ forbidding D e.
+Proof. exact forbidden_has_source. Qed.
+Print Assumptions C05_forbidden_has_source.
+
+(* order within a commit: every view a commit registers was derived under the registry state left by ALL
+   policy / default-permission statements of that commit (phases), *)
+Theorem C05_views_derived_under_final_state : forall s batch rt d,
+  In (rt, d) (cs_D (commit s batch)) ->
+  In (rt, d) (cs_D s) \/ exists cls eo o b, derive1 (cs_rs (commit s batch)) cls eo o b = Some d.
+Proof. exact commit_views_final_state. Qed.
+Print Assumptions C05_views_derived_under_final_state.
+
+(* that state holds a policy iff the commit (or an earlier one) contains a policy statement, wherever it is written, *)
+Theorem C05_commit_policy : forall s batch,
+  rs_policy (cs_rs (commit s batch)) = rs_policy (cs_rs s) || existsb policy_kept batch.
+Proof. exact commit_policy. Qed.
+Print Assumptions C05_commit_policy.
+
+(* order_irrelevant: and is the same for every permutation of the statements *)
+Theorem C05_order_irrelevant_policy : forall s b1 b2,
+  Permutation b1 b2 -> rs_policy (cs_rs (commit s b1)) = rs_policy (cs_rs (commit s b2)).
+Proof. exact order_irrelevant_policy. Qed.
+Print Assumptions C05_order_irrelevant_policy.
+
+Theorem C05_order_irrelevant_defperm : forall s b1 b2 p,
+  Permutation b1 b2 ->
+  (forall q, In (ADefPerm q) (somes5 (map (directive (cs_rs s)) b1)) -> q = p) ->
+  In (ADefPerm p) (somes5 (map (directive (cs_rs s)) b1)) ->
+  rs_defperm (cs_rs (commit s b1)) = Some p /\ rs_defperm (cs_rs (commit s b2)) = Some p.
+Proof. exact order_irrelevant_defperm. Qed.
+Print Assumptions C05_order_irrelevant_defperm.
+
+(* a view written before the policy statement of its commit is registered protected by its permission *)
+Theorem C05_view_before_policy_protected : forall s pre o post truthy d p,
+  let batch := pre ++ SView o :: post ++ [SPolicy truthy false] in
+  o_exc_only o = false -> o_perm o = Some p -> is_npr p = false ->
+  derive1 (cs_rs (commit s batch)) view_classifier false o (Plain (o_behave o)) = Some d ->
+  In (r_tag (d_reg d), d) (cs_D (commit s batch)) /\ d_perm d = Some p.
+Proof. exact view_before_policy_protected. Qed.
+Print Assumptions C05_view_before_policy_protected.
+
+(* the exception-view directives force "no permission required" and exception_only (regenerated facts) *)
+Theorem C05_exception_directives_unprotected : forall st s o b,
+  (exists o0, s = SForbidden o0 \/ s = SExcView o0 \/ exists a, s = SNotFound o0 a) ->
+  directive st s = Some (AView o b) ->
+  forall st', secured_permission st' true (o_perm o) = None /\ o_exc_only o = true.
+Proof. exact exception_directives_unprotected. Qed.
+Print Assumptions C05_exception_directives_unprotected.
